@@ -286,6 +286,12 @@ func scenarios(tier string) []*vsched.Scenario {
 			poolScenarioP(scenlib.PoolCfg{Cap: 2, Buf: 0, Max: 1, StandBy: 0, Batch: 1}, [][]jobSpec{{js("timed", S), js("timed", S)}}, false, 1, 1, false))
 		// a job that panics with a typed nil pointer is a panicking job like any other
 		out = append(out, poolScenario(scenlib.PoolCfg{Cap: 1, Buf: 1, Max: 1, StandBy: 1, Batch: 1}, [][]jobSpec{{js("panic-nilptr", S), js("plain", S)}}, false, 1, false))
+		// a job that ends its worker's goroutine with runtime.Goexit (no return, no panic): the pool replaces the worker, the
+		// later jobs still run (the worker's slot must not leak: three such jobs on a pool of at most one / two workers)
+		for _, c := range []scenlib.PoolCfg{{Cap: 1, Buf: 1, Max: 1, StandBy: 1, Batch: 1}, {Cap: 1, Buf: 2, Max: 2, StandBy: 0, Batch: 1}, {Cap: 2, Buf: 2, Max: 2, StandBy: 2, Batch: 1}} {
+			out = append(out, poolScenario(c, [][]jobSpec{{js("goexit", S), js("plain", S)}}, false, map[bool]int{true: 1, false: 0}[c.Max == 1], false),
+				poolScenario(c, [][]jobSpec{{js("goexit", S), js("goexit", S), js("goexit", S), js("plain", S), js("plain", S)}}, false, 0, false))
+		}
 		// an on-demand pool (stand-by 0) whose batch size is "everything in one worker": the largest int and its neighbour
 		for _, batch := range []int{math.MaxInt, math.MaxInt - 1} {
 			out = append(out, poolScenario(scenlib.PoolCfg{Cap: 1, Buf: 2, Max: 1, StandBy: 0, Batch: batch}, scripts[3], false, 1, false))
